@@ -274,6 +274,7 @@ let parse_e2e (o : string) : e2e_op =
   | 'f' -> XFinish (n_of_int (int_of_string rest))
   | 'P' -> XPause
   | 'R' -> XResume
+  | 'Q' -> XBurst (List.map (fun c -> c = 'R') (List.init (String.length rest) (String.get rest)))
   | 'E' -> XEmfile (nat_of_int (int_of_string rest))
   | '+' -> XAdvance (n_of_int (int_of_string rest))
   | 'K' -> XKill (nat_of_int (int_of_string rest))
@@ -361,6 +362,8 @@ let bldgen (line : string) : string =
     add 6 `C;
     if picked <> [] then add 5 `F;
     if has 'c' then (if st.paused then add 4 `R else add 1 `P; if rand 8 = 0 then add 1 (if st.paused then `P else `R));
+    (* bursts of commands issued back to back; a redundant first command followed by its opposite is the interesting shape *)
+    if has 'q' then add 2 `Q;
     (* not as the first operation: lowering RLIMIT_NOFILE right after start-up can hit a worker thread that is still building its
        Tokio runtime (which needs descriptors); one served connection later every worker is certainly up *)
     if has 'i' && not backoff && not st.paused && available st.av && snd !acc > 0 then add 1 `E;
@@ -375,6 +378,8 @@ let bldgen (line : string) : string =
      | `C -> emit (Printf.sprintf "c%d" (rand nl))
      | `F -> emit (Printf.sprintf "f%d" (pick_from picked))
      | `P -> emit "P" | `R -> emit "R"
+     | `Q -> let shapes = if st.paused then [| "PR"; "PR"; "PPR"; "RP"; "RPR"; "PRP"; "RR" |] else [| "RP"; "RP"; "RRP"; "PR"; "PRP"; "RPR"; "PP" |] in
+       emit ("Q" ^ shapes.(rand (Array.length shapes)))
      | `E -> emit (Printf.sprintf "E%d" (rand nl))
      | `K -> if rand 3 = 0 then emit (Printf.sprintf "J%d:%d" (rand nl) (rand nl)) else emit (Printf.sprintf "K%d" (rand nl))
      | `T -> emit "+600")
